@@ -95,6 +95,12 @@ chk("C07", "enum",
     "The table in c07.go is hand-written from the ActivityStreams vocabulary; reading D3.",
     "DESIGN.md §3 C07")
 
+chk("C06", "enum",
+    "bounded-exhaustive enumeration of all token sequences up to length L over a 32-token text alphabet x positions x forms x channels on the implementation; oracle = byte equality",
+    "All texts of up to 3 tokens (quick) / 4 tokens for content (thorough) over an alphabet chosen to contain every escaping hazard are stored in each text-bearing property in each form and sent through JSON (package functions and methods), gob and the NaturalLanguageValues method pair; bytes must come back identical and map tags preserved.",
+    "Alphabet finite; valid UTF-8 only.",
+    "DESIGN.md §3 C06")
+
 manifest = {
     "version": 1,
     "setup_cmd": "./setup.sh",
